@@ -292,3 +292,22 @@ MUTANTS += [
     M("c07-r2-transform-fatal", "C07", "C07.R2", "transform/tparsetime/tparsetime.go", "\t\ttf.errorCounter(record.RawLength)\n", "\t\ttf.errorCounter(record.RawLength)\n\t\ttf.errorLogger.Fatal(\"bad timestamp: \", err)\n", "any unparsable timestamp"),
     B("c07-r3-benign-sanitize-value-form", "C07", LPCS, "\t\tfor i, key := range permKeys {\n\t\t\t// field values come from the network; label values must be valid UTF-8 or the metric library panics\n\t\t\tpermKeys[i] = strings.ToValidUTF8(key, \"\\uFFFD\")\n\t\t}\n", "\t\tfor i := range permKeys {\n\t\t\tpermKeys[i] = strings.ToValidUTF8(permKeys[i], \"?\")\n\t\t}\n"),
 ]
+
+TPT = "transform/tparsetime/tparsetime.go"
+ATOI = "transform/tparsetime/atoi.go"
+
+MUTANTS += [
+    # ---------------- C13
+    M("c13-r1-revert-length-guard", "C13", "C13.R1", RFC, "\tif len(t) < 19 || t[4] != '-' ||", "\tif t[4] != '-' ||", "timestamp '-'"),
+    M("c13-r1-guard-too-short", "C13", "C13.R1", RFC, "\tif len(t) < 19 || t[4] != '-' ||", "\tif len(t) < 17 || t[4] != '-' ||", "an 18-byte timestamp (seconds cut off)"),
+    M("c13-r1-atof6-reads-past", "C13", "C13.R1", ATOI, "\t\tfloat64((s[6]-'0'))*0.000001\n\treturn v\n}\n\nfunc atof9", "\t\tfloat64((s[7]-'0'))*0.000001\n\treturn v\n}\n\nfunc atof9", "a six-digit fraction"),
+    M("c13-r1-split-scan-past-end", "C13", "C13.R1", RFC, "\t\tfor i < len(s) && s[i] >= '0' && s[i] <= '9' {", "\t\tfor i <= len(s) && s[i] >= '0' && s[i] <= '9' {", "a timestamp ending in digits (no zone)"),
+    M("c13-r2-empty-not-counted", "C13", "C13.R2", TPT, "\tvalue := tf.keyLocator.Get(record.Fields)\n\ttm, err", "\tvalue := tf.keyLocator.Get(record.Fields)\n\tif len(value) == 0 {\n\t\treturn base.PASS\n\t}\n\ttm, err", "an empty timestamp token"),
+    M("c13-r2-store-on-error", "C13", "C13.R2", TPT, "\t} else {\n\t\trecord.Timestamp = tm\n\t}\n\treturn base.PASS", "\t}\n\trecord.Timestamp = tm\n\treturn base.PASS", "any unparsable timestamp: receive time replaced by time.Now() of the parser"),
+    M("c13-r2-error-not-counted", "C13", "C13.R2", TPT, "\t\ttf.errorCounter(record.RawLength)\n", "", "any unparsable timestamp"),
+    M("c13-r3-revert-rounding", "C13", "C13.R3", RFC, "int(math.Round(frac*1000000000.0))", "int(frac*1000000000.0 + 0*math.Pi)", "fraction .000129"),
+    M("c13-r4-separator-unchecked", "C13", "C13.R4", RFC, " || t[10] != 'T' ||", " ||", "'2019-08-15 15:50:46Z' (space instead of T) is parsed instead of reported"),
+    M("c13-r4-error-swallowed", "C13", "C13.R4", RFC, "\tif len(t) < 19 || t[4] != '-' || t[7] != '-' || t[10] != 'T' || t[13] != ':' || t[16] != ':' {\n\t\treturn time.Now(), fmt.Errorf(\"invalid timestamp\")\n\t}", "\tif len(t) < 19 || t[4] != '-' || t[7] != '-' || t[10] != 'T' || t[13] != ':' || t[16] != ':' {\n\t\treturn time.Now(), nil\n\t}", "any malformed timestamp: the parser's own clock replaces the receive time, nothing is counted"),
+    B("c13-benign-separators-reordered", "C13", RFC, "t[4] != '-' || t[7] != '-' || t[10] != 'T' || t[13] != ':' || t[16] != ':' {", "t[16] != ':' || t[13] != ':' || t[10] != 'T' || t[7] != '-' || t[4] != '-' {"),
+    B("c13-benign-round-variable", "C13", RFC, "\treturn time.Date(year, time.Month(month), date, hour, min, sec, int(math.Round(frac*1000000000.0)), location), nil", "\tnsec := math.Round(frac * 1e9)\n\treturn time.Date(year, time.Month(month), date, hour, min, sec, int(nsec), location), nil"),
+]
